@@ -156,6 +156,11 @@ def step(ctx, model="single", kind_="euler", nel=1, N=3, bcs=((None, None),)):
     cls = SinglePhaseModel if model == "single" else HomogenizationModel
     m, dz, x, vals = mk_model(ctx, cls, nel, N, bcs)
     dt = ctx.real("dt", (0.01, 0.5)); ctx.assume(dt > 0); ctx.assume(dt < 1e29)
+    if model != "single":
+        for i in range(N):
+            for e in range(nel):
+                ctx.assume(x[e, i] > 0)
+            ctx.assume(sum(x[e, i] for e in range(nel)) < 1)
     stages = []
     if model == "single":
         class St:
@@ -283,7 +288,8 @@ HARNESSES = [
             opts={"ob_timeout": 60.0}, budget={"quick": 150.0, "thorough": 1500.0},
             params={"quick": [{"model": "single", "kind_": "euler", "nel": 1, "N": 3, "bcs": B1[0]}, {"model": "single", "kind_": "rk4", "nel": 1, "N": 3, "bcs": B1[2]},
                               {"model": "homog", "kind_": "euler", "nel": 1, "N": 3, "bcs": B1[1]}, {"model": "single", "kind_": "euler", "nel": 2, "N": 2, "bcs": B2[1]}],
-                    "thorough": [{"model": mo, "kind_": k, "nel": 1, "N": 3, "bcs": b} for mo in ("single", "homog") for k in ("euler", "rk4") for b in B1[:3]]}),
+                    "thorough": [{"model": "single", "kind_": k, "nel": 1, "N": 3, "bcs": b} for k in ("euler", "rk4") for b in B1[:3]] +
+                                [{"model": "homog", "kind_": "euler", "nel": 1, "N": 3, "bcs": b} for b in B1[:3]] + [{"model": "single", "kind_": "euler", "nel": 2, "N": 3, "bcs": B2[1]}]}),
     Harness("C04.clip", clip, functions=_F, assumptions=_A + ["initial profile >= 0 with node sums <= 1"], stubs=_S,
             params={"quick": [{"nel": 1, "N": 2}, {"nel": 2, "N": 2}, {"nel": 1, "N": 3, "both": True}], "thorough": [{"nel": 2, "N": 3}, {"nel": 3, "N": 2}, {"nel": 2, "N": 3, "both": True}]}),
 ]
